@@ -22,6 +22,13 @@ pub fn markers() -> Vec<Value> {
         json!({"+": ["x"]}),
         json!({"log": "LEAK"}),
         json!({"var": "s", "z": 1}),
+        // shaped like operations that are ill-formed or would fail: as data they are objects like any other
+        json!({"==": [1]}),
+        json!({"!": []}),
+        json!({"substr": "abc"}),
+        json!({"in": [1, 2]}),
+        json!({"var": [[1]]}),
+        json!({"if": [{"none": []}]}),
     ]
 }
 
@@ -478,6 +485,11 @@ pub fn radix_tails() -> Vec<Value> {
             }
             out.push(Value::String(format!("{}{}", pre, b)));
         }
+        // the bare prefix, in both cases, padded
+        out.push(Value::String(pre.to_string()));
+        out.push(Value::String(pre.to_uppercase()));
+        out.push(Value::String(format!(" {} ", pre)));
+        out.push(Value::String(format!("{}0", pre)));
     }
     dedup(out)
 }
